@@ -51,6 +51,30 @@ func genSnapCase(e *Env) *jSnapCase {
 	}
 	c.PauseAfter = r.Intn(6)
 	c.FlushInPause = r.Intn(2) == 0
+	if r.Intn(3) == 0 && c.Table.GroupBy != nil {
+		// interior nodes of the memstore's radix tree: a row whose key is a byte prefix of other keys
+		// (the empty key: a point with none of the group-by dims) entered into the fresh memstore
+		// before the others, and updated while the scan is paused
+		last := -1
+		for _, f := range c.FlushAfter {
+			if f > last {
+				last = f
+			}
+		}
+		empty := genDBPoints(r, &c.Table, 1)[0]
+		empty.Dims = map[string]jVal{}
+		if len(empty.Vals) == 0 {
+			empty.Vals = map[string]int64{"a": 3}
+		}
+		rest := append([]jPoint(nil), c.Points[last+1:]...)
+		c.Points = append(append(append([]jPoint(nil), c.Points[:last+1]...), empty), rest...)
+		c.Points = append(c.Points, genDBPoints(r, &c.Table, 2)...)
+		c.FinalFlush = false
+		upd := empty
+		upd.Vals = map[string]int64{"a": 100, "b": 200, "c": 300}
+		c.During = append(c.During, upd)
+		c.PauseAfter = r.Intn(2)
+	}
 	return c
 }
 
